@@ -287,7 +287,7 @@ func (c *Ctx) Obs(name string, d int64) {
 
 // Bounded runs f and waits for it for at most limit (a generous wall-clock bound around an operation that
 // needs no time at all on correct code). It returns false when f has not returned by then: the goroutine
-// is abandoned, the worker goes on, and the driver reports the run as inconclusive for that operation.
+// is abandoned and the worker goes on; what the expiry means is the caller's decision.
 func (c *Ctx) Bounded(limit time.Duration, what string, f func()) (returned bool, panicked interface{}) {
 	done := make(chan interface{}, 1)
 	go func() {
@@ -300,13 +300,18 @@ func (c *Ctx) Bounded(limit time.Duration, what string, f func()) (returned bool
 	case p := <-done:
 		return true, p
 	case <-t.C:
-		c.mu.Lock()
-		if len(c.res.Watchdogs) < 20 {
-			c.res.Watchdogs = append(c.res.Watchdogs, what)
-		}
-		c.mu.Unlock()
 		return false, nil
 	}
+}
+
+// Inconclusive records that something could not be judged (reported by the driver, exit code 2 unless a
+// violation was found as well).
+func (c *Ctx) Inconclusive(what string) {
+	c.mu.Lock()
+	if len(c.res.Watchdogs) < 20 {
+		c.res.Watchdogs = append(c.res.Watchdogs, what)
+	}
+	c.mu.Unlock()
 }
 
 // ObsMax keeps the maximum.
